@@ -172,6 +172,9 @@ impl SauceData {
                 buffer_size.width = ((file_type as u16) << 1) as i32;
                 sauce_file_type = SauceFileType::Bin;
                 use_ice = (t_flags & ANSI_FLAG_NON_BLINK_MODE) == ANSI_FLAG_NON_BLINK_MODE;
+                // BinaryText carries the whole ANSiFlags byte, like ANSi
+                use_letter_spacing = (t_flags & ANSI_MASK_LETTER_SPACING) == ANSI_LETTER_SPACING_9PX;
+                use_aspect_ratio = (t_flags & ANSI_MASK_ASPECT_RATIO) == ANSI_ASPECT_RATIO_STRETCH;
                 font_opt = Some(t_info_str.to_string());
             }
             SauceDataType::XBin => {
@@ -228,6 +231,9 @@ impl SauceData {
                         buffer_size = Size::new(t_info1, t_info2);
                         sauce_file_type = SauceFileType::ANSiMation;
                         use_ice = (t_flags & ANSI_FLAG_NON_BLINK_MODE) == ANSI_FLAG_NON_BLINK_MODE;
+                        // ANSiMation carries the whole ANSiFlags byte, like ANSi
+                        use_letter_spacing = (t_flags & ANSI_MASK_LETTER_SPACING) == ANSI_LETTER_SPACING_9PX;
+                        use_aspect_ratio = (t_flags & ANSI_MASK_ASPECT_RATIO) == ANSI_ASPECT_RATIO_STRETCH;
                         font_opt = Some(t_info_str.to_string());
                     }
 
@@ -517,6 +523,10 @@ impl Buffer {
                 t_info1 = self.get_width();
                 t_info2 = self.get_height();
                 if matches!(self.ice_mode, IceMode::Ice) { t_flags |= ANSI_FLAG_NON_BLINK_MODE; }
+                if let Some(sauce_data) = self.get_sauce() {
+                    if sauce_data.use_aspect_ratio { t_flags |= ANSI_ASPECT_RATIO_STRETCH; }
+                    if sauce_data.use_letter_spacing { t_flags |= ANSI_LETTER_SPACING_9PX; }
+                }
             },
             SauceFileType::PCBoard => {
                 data_type = SauceDataType::Character;
@@ -549,6 +559,10 @@ impl Buffer {
                 }
                 file_type = w as u8;
                 if matches!(self.ice_mode, IceMode::Ice) { t_flags |= ANSI_FLAG_NON_BLINK_MODE; }
+                if let Some(sauce_data) = self.get_sauce() {
+                    if sauce_data.use_aspect_ratio { t_flags |= ANSI_ASPECT_RATIO_STRETCH; }
+                    if sauce_data.use_letter_spacing { t_flags |= ANSI_LETTER_SPACING_9PX; }
+                }
             },
             SauceFileType::XBin => {
                 data_type = SauceDataType::XBin;
